@@ -6,6 +6,8 @@ builds, then every quick check against the patched copy) and stores patch.diff, 
 the uniform format under seeded/<Cxx>-<name>/.  If the demonstration does not fail in the debug profile it is re-run
 with --release and, failing that too, the change is NOT kept."""
 import json, os, subprocess, sys, tempfile, shutil
+import os as _os
+_os.environ["RUST_BACKTRACE"] = "0"    # demos with allocator oracles must not see the backtrace machinery allocate
 HERE = os.path.dirname(os.path.dirname(os.path.abspath(__file__)))
 
 
